@@ -16,3 +16,8 @@ check("C06", "other",
       "declared leaf bounds (unbounded integers) for all programs up to the stated depth in both engines; z3 decides "
       "min_rows <= count <= max_rows, column sets and flag implications against direct evaluation over symbolic leaf tables.",
       BSV, "3/C06")
+check("C19", "other",
+      "SMT string encoding regenerated from the AST of get_relation_name: z3 (and cvc5 in the thorough tier) shows two arbitrary "
+      "calls cannot collide given distinct uuid4 values, with the counter rendering unconstrained (covers every interleaving), and "
+      "that the prefix is a prefix; translator validated against the real function; sat answers replayed with a forced schedule.",
+      "source-to-SMT (string theory) translation of the real function, z3/cvc5 unsat queries", "3/C19")
